@@ -254,3 +254,108 @@ def permutation_contract():
 
     return Contract(name="lemma:permutation_equivariance_of_the_ekf_specification", module=MOD, qualname="permuted_pair", wrap=wrap, requires=requires, ensures=ensures, instances=instances,
                     doc="permuting the state components (v = Pi u, field Pi f(Pi^T v, t), state (I (x) Pi) m, (I (x) Pi) P (I (x) Pi)^T) permutes the first-order EKF step: the permuted gain / whitening witnesses are witnesses of the permuted problem, mean and covariance are permuted, the quasi-MLE term is unchanged (with gain uniqueness: every solution of the permuted problem); the Jacobian of the permuted field is obtained by differentiating it (uninterpreted f)")
+
+
+# ---- triangular-factor lemmas behind the log-density specification (C12) -----------------------------------
+
+
+def triangular_factor_facts(C, Cinv, r):
+    """For a lower-triangular factor C of cov = C C^T with (ghost) inverse Cinv and w = Cinv r:
+    returns (cov, W := Cinv^T Cinv, |w|^2, r^T W r, det cov by Leibniz expansion, (prod diag C)^2)."""
+    import itertools
+
+    n = C.shape[0]
+    Cl = jnp.tril(C)
+    cov_ = Cl @ Cl.T
+    W = Cinv.T @ Cinv
+    w = Cinv @ r
+    det = 0.0
+    for perm in itertools.permutations(range(n)):
+        sign = 1.0
+        for i in range(n):
+            for j in range(i + 1, n):
+                if perm[i] > perm[j]:
+                    sign = -sign
+        term = sign
+        for i in range(n):
+            term = term * cov_[i, perm[i]]
+        det = det + term
+    prod = 1.0
+    for i in range(n):
+        prod = prod * Cl[i, i]
+    return cov_, W, jnp.sum(w * w), r @ W @ r, det, prod * prod, Cl @ w
+
+
+def triangular_contract():
+    def requires(C, Cinv, r):
+        n = C.shape[0]
+        Cl = jnp.tril(C)
+        return [eq("Cinv_is_left_inverse", Cinv @ Cl, jnp.eye(n)), eq("Cinv_is_right_inverse", Cl @ Cinv, jnp.eye(n))]
+
+    def ensures(res, C, Cinv, r):
+        cov_, W, ww, rWr, det, prod2, Cw = res
+        n = C.shape[0]
+        return [eq("whitened_residual_solves_C_w_=_r", Cw, r),
+                eq("W_inverts_cov_left", W @ cov_, jnp.eye(n)), eq("W_inverts_cov_right", cov_ @ W, jnp.eye(n)),
+                eq("squared_whitened_norm_is_mahalanobis_distance", ww, rWr),
+                eq("determinant_of_cov_is_squared_product_of_diagonal", det, prod2)]
+
+    def instances(tier):
+        out = []
+        for n in (1, 2, 3) + ((4,) if tier == "thorough" else ()):
+            def make(rng, n=n):
+                C = np.tril(rng.normal(size=(n, n))) + 2.0 * np.eye(n)
+                return (jnp.asarray(C), jnp.asarray(np.linalg.inv(C)), jnp.asarray(rng.normal(size=(n,)))), {}
+            out.append(Instance(f"n={n}", make))
+        return out
+
+    return Contract(name="lemma:triangular_factor_gives_mahalanobis_and_determinant", module=MOD, qualname="triangular_factor_facts", requires=requires, ensures=ensures, instances=instances,
+                    doc="for any lower-triangular C with C C^T = cov and C w = r: |w|^2 = r^T cov^-1 r and det cov = (prod C_ii)^2, so -1/2|w|^2 - sum log|C_ii| - n/2 log 2 pi is the Gaussian log-density (the logarithm rule log(x^2) = 2 log|x| is the only step left to mathematics)")
+
+
+# ---- Rauch-Tung-Striebel recursion = conditioning of the joint law (C03) -------------------------------------
+
+
+def rts_vs_direct(m, P, Phi, c, Q, H, d, R, y, K, G):
+    """x0 ~ N(m, P), x1 = Phi x0 + c + N(0, Q), y = H x1 + d + N(0, R).  Inverse-free: K is a filter gain
+    (K S = P1 H^T), G a smoothing gain (G P1 = P Phi^T) -- the ghost witnesses the C02 / C03 contracts provide.
+    Returns the RTS result for x0 | y and the quantities of the direct conditioning of the joint law (x0, y)."""
+    m1 = Phi @ m + c
+    P1 = Phi @ P @ Phi.T + Q
+    yhat = H @ m1 + d
+    S = H @ P1 @ H.T + R
+    C0 = P @ Phi.T @ H.T  # Cov(x0, y)
+    ms = m1 + K @ (y - yhat)
+    Ps = P1 - K @ S @ K.T
+    rts_mean = m + G @ (ms - m1)
+    rts_cov = P + G @ (Ps - P1) @ G.T
+    D = G @ K  # candidate gain of the direct problem
+    return rts_mean, rts_cov, D @ S, C0, m + D @ (y - yhat), P - D @ S @ D.T, P1, S
+
+
+def rts_contract():
+    def requires(m, P, Phi, c, Q, H, d, R, y, K, G):
+        *_, P1, S = rts_vs_direct(m, P, Phi, c, Q, H, d, R, y, K, G)
+        return [eq("K_is_a_filter_gain", K @ S, P1 @ H.T), eq("G_is_a_smoothing_gain", G @ P1, P @ Phi.T)]
+
+    def ensures(res, m, P, Phi, c, Q, H, d, R, y, K, G):
+        rm, rc, DS, C0, dm, dc, P1, S = res
+        return [eq("G_K_is_a_gain_of_the_direct_conditioning_problem", DS, C0),
+                eq("smoothed_mean_is_conditional_mean_of_the_joint_law", rm, dm), eq("smoothed_cov_is_conditional_cov_of_the_joint_law", rc, dc)]
+
+    def instances(tier):
+        out = []
+        for n, k in [(1, 1), (2, 1), (2, 2)] + ([(3, 2), (3, 3)] if tier == "thorough" else []):
+            def make(rng, n=n, k=k):
+                sym = lambda a: a @ a.T + np.eye(a.shape[0])
+                P, Q, R = sym(rng.normal(size=(n, n))), sym(rng.normal(size=(n, n))), sym(rng.normal(size=(k, k)))
+                Phi, H = rng.normal(size=(n, n)), rng.normal(size=(k, n))
+                P1 = Phi @ P @ Phi.T + Q
+                S = H @ P1 @ H.T + R
+                vals = (rng.normal(size=(n,)), P, Phi, rng.normal(size=(n,)), Q, H, rng.normal(size=(k,)), R, rng.normal(size=(k,)), P1 @ H.T @ np.linalg.inv(S), P @ Phi.T @ np.linalg.inv(P1))
+                return tuple(jnp.asarray(v) for v in vals), {}
+            out.append(Instance(f"n={n},k={k}", make))
+        return out
+
+    return Contract(name="lemma:rts_step_equals_conditioning_of_the_joint_law", module=MOD, qualname="rts_vs_direct", requires=requires, ensures=ensures, instances=instances,
+                    doc="one future datum: filtering x1 | y followed by one Rauch-Tung-Striebel step equals conditioning the joint Gaussian (x0, y): the product of smoothing and filter gain is a gain of the direct problem, and mean / covariance coincide (with gain uniqueness: the conditional law); longer horizons follow by induction with the Markov property (stated)")
